@@ -160,25 +160,29 @@ impl<'a> Gen<'a> {
         }
     }
     pub fn f32bits(&mut self) -> u64 {
-        let k = self.weighted(&[3, 2, 1, 1, 1, 3]);
+        let k = self.weighted(&[3, 2, 1, 1, 1, 3, 1]);
         (match k {
             0 => 0.0f32.to_bits(),
             1 => 1.5f32.to_bits(),
             2 => f32::NAN.to_bits() | 0x1234,
             3 => f32::NEG_INFINITY.to_bits(),
             4 => (-0.0f32).to_bits(),
-            _ => self.d.below(self.st, u32::MAX),
+            5 => self.d.below(self.st, u32::MAX),
+            // signalling NaN
+            _ => 0x7FA0_0001,
         }) as u64
     }
     pub fn f64bits(&mut self) -> u64 {
-        let k = self.weighted(&[3, 2, 1, 1, 1, 3]);
+        let k = self.weighted(&[3, 2, 1, 1, 1, 3, 1]);
         match k {
             0 => 0.0f64.to_bits(),
             1 => 1.5f64.to_bits(),
             2 => f64::NAN.to_bits() | 0x1234_5678,
             3 => f64::NEG_INFINITY.to_bits(),
             4 => (-0.0f64).to_bits(),
-            _ => (self.d.below(self.st, u32::MAX) as u64).wrapping_mul(0x9E37_79B9_7F4A_7C15),
+            5 => (self.d.below(self.st, u32::MAX) as u64).wrapping_mul(0x9E37_79B9_7F4A_7C15),
+            // signalling NaN
+            _ => 0x7FF4_0000_0000_0001,
         }
     }
     pub fn boolean(&mut self) -> bool {
